@@ -1,5 +1,6 @@
 import ChiaModel.Lemmas.Cost
 import ChiaModel.Lemmas.CostNative
+import ChiaModel.Lemmas.CostDecomp
 import ChiaModel.Lemmas.CostTable
 import ChiaModel.Props.C02
 import ChiaModel.Spec.CostTable
@@ -241,5 +242,99 @@ theorem legacy_limit_exact (p : Params) (g : GenInput) (romRun : RunRes) (L : Na
                   charge_ok_iff.mpr ⟨by omega, rfl⟩
                 rw [c2]; simp only
                 rw [l3 _ (by omega)]
+
+/-- (auxiliary) post-processing does not touch the cost fields -/
+theorem postProcess_costs (env : Env) (ret : Bundle) (st : PState) :
+    (postProcess env ret st).executionCost = ret.executionCost ∧ (postProcess env ret st).conditionCost = ret.conditionCost := by
+  unfold postProcess; split <;> exact ⟨rfl, rfl⟩
+
+/-- **Cost decomposition, native path.**  The cost `run_block_generator2` reports for an accepted
+block is exactly byte cost (serialised length or interned size, times cost-per-byte) + execution
+cost (generator run + puzzle runs) + condition cost (the table sum of C04 `cost_is_table_sum`). -/
+theorem native_cost_decomposition (p : Params) (g : GenInput) (genRun : RunRes) (puz : Nat → RunRes) (L : Nat) (b : Bundle)
+    (h : native p g genRun puz L = .ok b) :
+    b.cost = nativeBase p g + b.executionCost + b.conditionCost := by
+  rw [native_eq] at h
+  by_cases h0 : simpleGen p.flags ∧ !g.startsQuote
+  · rw [if_pos h0] at h; cases h
+  rw [if_neg h0] at h
+  cases hl : nativeCountdown p g genRun puz L with
+  | error e => rw [hl] at h; cases h
+  | ok q =>
+    obtain ⟨⟨ret, st⟩, left⟩ := q
+    rw [hl] at h; simp only at h
+    cases hb : finishBundle (nativeEnv p) p.sigOk ret st with
+    | error e => rw [hb] at h; cases h
+    | ok ret' =>
+      rw [hb] at h; simp only at h
+      injection h with h
+      obtain ⟨_, hr⟩ := C02.finishBundle_ok hb
+      obtain ⟨pc1, pc2⟩ := postProcess_costs (nativeEnv p) ret st
+      unfold nativeCountdown at hl
+      obtain ⟨⟨_, m0⟩, hc0, hl⟩ := bind_ok hl
+      simp only at hl
+      by_cases h1 : (!generatorNodeOk p.flags g.prog) = true
+      · rw [if_pos h1] at hl; cases hl
+      rw [if_neg h1] at hl
+      by_cases h2 : simpleGen p.flags = true ∧ g.nrefs > 0
+      · rw [if_pos h2] at hl; cases hl
+      rw [if_neg h2] at hl
+      obtain ⟨⟨r, m1⟩, hrun, hl⟩ := bind_ok hl
+      simp only at hl
+      cases hf : first r.2 with
+      | error e => rw [hf] at hl; cases hl
+      | ok allSpends =>
+        rw [hf] at hl; simp only at hl
+        by_cases h3 : (!allExtract3 allSpends) = true
+        · rw [if_pos h3] at hl; cases hl
+        rw [if_neg h3] at hl
+        have e0 : nativeBase p g ≤ L ∧ m0 = L - nativeBase p g := by
+          obtain ⟨m', hc, hp⟩ := bind_ok hc0
+          injection hp with hp; injection hp with _ hp
+          obtain ⟨a1, a2⟩ := charge_ok_iff.mp hc
+          exact ⟨a1, by omega⟩
+        obtain ⟨_, e1⟩ := runCharge_ok hrun
+        have e2 := nativeLoop_cost (nativeEnv p) puz allSpends 0 _ _ _ m1 ret st left hl
+        simp only at e2
+        have hcost : b.cost = L - left := by rw [← h]
+        have hex : b.executionCost = ret.executionCost := by rw [← h, hr]; exact pc1
+        have hcc : b.conditionCost = ret.conditionCost := by rw [← h, hr]; exact pc2
+        have : (({} : Bundle).conditionCost) = 0 := rfl
+        omega
+
+/-- **Cost decomposition, mempool path** (`run_spendbundle`). -/
+theorem runSpendbundle_cost_decomposition (p : Params) (spends : List CoinSpendM) (puz : Nat → RunRes) (L : Nat)
+    (b : Bundle) (pk : List (Bytes × Bytes)) (h : runSpendbundle p spends puz L = .ok (b, pk)) :
+    b.cost = bundleBase p spends + b.executionCost + b.conditionCost := by
+  rw [runSpendbundle_eq] at h
+  cases hl : bundleCountdown p spends puz L with
+  | error e => rw [hl] at h; cases h
+  | ok q =>
+    obtain ⟨⟨ret, st⟩, left⟩ := q
+    rw [hl] at h; simp only at h
+    cases hv : validateConditions (postProcess (bundleEnv p) ret st) st with
+    | error e => rw [hv] at h; cases h
+    | ok u =>
+      rw [hv] at h; simp only at h
+      injection h with h; injection h with h hpk
+      obtain ⟨pc1, pc2⟩ := postProcess_costs (bundleEnv p) ret st
+      unfold bundleCountdown at hl
+      obtain ⟨⟨_, m0⟩, hc0, hl⟩ := bind_ok hl
+      simp only at hl
+      by_cases h1 : hasFlag p.flags Gen.flagLimitSpends = true ∧ spends.length > MAX_SPENDS_PER_BLOCK
+      · rw [if_pos h1] at hl; cases hl
+      rw [if_neg h1] at hl
+      have e0 : bundleBase p spends ≤ L ∧ m0 = L - bundleBase p spends := by
+        obtain ⟨m', hc, hp⟩ := bind_ok hc0
+        injection hp with hp; injection hp with _ hp
+        obtain ⟨a1, a2⟩ := charge_ok_iff.mp hc
+        exact ⟨a1, by omega⟩
+      have e2 := bundleLoop_cost (bundleEnv p) puz spends 0 _ _ m0 ret st left hl
+      have hcost : b.cost = L - left := by rw [← h]
+      have hex : b.executionCost = ret.executionCost := by rw [← h]; exact pc1
+      have hcc : b.conditionCost = ret.conditionCost := by rw [← h]; exact pc2
+      have z1 : (({} : Bundle).conditionCost) = 0 := rfl
+      have z2 : (({} : Bundle).executionCost) = 0 := rfl
+      omega
 
 end ChiaModel.C04
